@@ -39,8 +39,8 @@ ASSUMPTIONS = [
     "int()/float() of a stat token are modelled for the decimal tokens the kernel writes",
 ]
 MANIFEST = {
-    "level_text": "Machine-checked Lean 4 proofs over a transcription of ppid_map()/children()/parent()/parents()/_raise_if_pid_reused(): for EVERY ppid map and every start-time assignment (forests, self-loops, cycles, unlisted parents, ties) children() is exactly the set of listed processes whose parent link is the caller and that are not older than it, children(recursive=True) is exactly the inductive reachability closure minus the caller, each PID once (C05_children_exact, C05_children_rec_exact, C05_nodup, C05_not_self, C05_no_older), the walk terminates on any graph (C05_terminates: a proved fuel bound; without the `seen` guard divergence is proved), parent()/parents() equal psutil's reading 'named by ppid() unless younger, and the lowest listed PID has no parent' (C05_parent_spec, C05_parents_chain, C05_parents_terminates: a CHARACTERISATION of the code) and equal the LITERAL statement (parentLit/ChainLit: no lowest-PID rule) exactly off the region where the lowest listed PID shows a parent (C05_parent_literal, C05_parents_literal; counterexample C05_lowest_pid_parent_counterexample = known finding C05-lowest-pid-parent), a caller whose incarnation is gone or whose PID was recycled gets NoSuchProcess whatever the object saw before — children() at full strength (C05_dead_caller_NSP, C05_recycled_caller_NSP), parent()/parents() for every caller except a dead one that is the lowest listed PID, where the code as found answers None/[] (C05_recycled_lowest_pid_counterexample, C05_recycled_lowest_pid_as_found = known finding C05-recycled-lowest-pid, PENDING(fixes/C05-parent-root-recycled.diff); full strength proved for the repaired configuration: C05_recycled_caller_NSP_parent_repaired), and both stat readers recover ppid/starttime for every comm byte string (C05_stat_roundtrip). Richer world (Model/C05Dyn): any set of other processes with an unreadable or vanished stat file is left out and never fails children() (C05_unreadable_left_out[_rec], C05_unreadable_never_returned; false without the hypothesis that readable processes stay readable during the walk: C05_unreadable_mid_walk_counterexample), zombies are processes like any other (a modelling decision recorded as C05_model_state_letter_unread[_parents]; the code's zombie paths are tied by the correspondence only), parents() over ANY sequence of worlds — ancestors exiting, reaped, recycled, re-parented between two parent() calls — is the step-wise chain (C05_parents_dyn_spec), each element the parent of the previous one when looked up, never younger, no PID twice (C05_parents_dyn_links), terminating within |PIDs|+2 iterations (C05_parents_dyn_terminates), ending with NoSuchProcess at an element that is no longer itself (C05_parent_dyn_dead_NSP); inside oneshot() a cached ppid is answered without identity check (model lemma C05_model_oneshot_cache_hit), while a stat memo filled by another method still goes through the identity check (C05_oneshot_statmemo_parent). Round 3: the rich model of parent()/parents() is proved equal to the plain one on constant readable tables for every configuration (C05_static_parent_refines, C05_static_parents_refines; formerly a run-time flag); a recycled caller gets NoSuchProcess whatever is unreadable — the new owner included (C05_dead_caller_NSP_X, C05_recycled_caller_NSP_X[_parent], C05_parents_dyn_dead_NSP); with NO hypothesis on the look-up world a value returned by children() is exact and the only other outcome is AccessDenied(c) for a process c that turned unreadable (C05_children_value_exact, C05_children_outcomes); a value returned by parent() is the right one in any worlds (C05_parent_dyn_sound). Audit round: completeness of parents() while the table changes against the literal chain (C05_parent_dyn_literal, C05_parents_dyn_literal); SEQUENCES of calls on one object (Model/C05Seq): while the incarnation lives no call changes the object, so every single-call theorem holds for the n-th call (C05_seq_object_unchanged, C05_seq_children_exact), flags are only set by a call that saw it dead (C05_seq_flags_sound), a dead object stays dead (C05_seq_dead_stays_dead); the ORDER of children() is unspecified (a set) and characterised (C05_children_order_flat, C05_children_order_docstring: the docstring's order is not the code's). The model is tied to the code by translator facts (the three `<=`, the seen guard, the own-PID drop, the parents() cycle stop, the identity pre-checks incl. the `_gone` test, the lowest-PID stop, rfind/index facts, the except tuple of ppid_map(), POSIX ppid() uncached, create_time() cached; 22 facts, extractors total and independent) feeding the proof obligations cfg_good/scfg_good/xcfg_good/ocfg_good, and by a differential run of the real methods over fake procfs tables, random and exhaustive, incl. histories of several calls on one object and the unsorted order of children().",
-    "level_note": "Trusted: Lean kernel + {propext, Classical.choice, Quot.sound}; the translator; the correspondence harness; float create_time modelled by integer ticks (monotonicity checked at run time); atomic file reads; Process(pid)+create_time() as one look-up. The specification is silent (model-only comparison) about WHICH exception an unreadable stat file on the path of parent()/parents() produces, about a caller whose own stat file is unreadable while it is still the same incarnation (a recycled unreadable caller must get NoSuchProcess), and on a oneshot ppid() cache hit; for processes turning unreadable during the walk of children() the specification is the exact value or AccessDenied(that process). The specification of parent()/parents() is the LITERAL statement; inside the regions of the two known findings (lowest listed PID shows a parent; dead caller that is the lowest listed PID) the check accepts exactly psutil's reading and still requires equality with the Lean model. The order of children()'s list is compared with the model only (unspecified by the statement). The zombie paths of the code (wrap_exceptions/_raise_if_zombie) and @memoize_when_activated are not in the model (correspondence only).",
+    "level_text": "Machine-checked Lean 4 proofs over a transcription of ppid_map()/children()/parent()/parents()/_raise_if_pid_reused(): for EVERY ppid map and every start-time assignment (forests, self-loops, cycles, unlisted parents, ties) children() is exactly the set of listed processes whose parent link is the caller and that are not older than it, children(recursive=True) is exactly the inductive reachability closure minus the caller, each PID once (C05_children_exact, C05_children_rec_exact, C05_nodup, C05_not_self, C05_no_older), the walk terminates on any graph (C05_terminates: a proved fuel bound; without the `seen` guard divergence is proved), parent()/parents() equal psutil's reading 'named by ppid() unless younger, and the lowest listed PID has no parent' (C05_parent_spec, C05_parents_chain, C05_parents_terminates: a CHARACTERISATION of the code) and equal the LITERAL statement (parentLit/ChainLit: no lowest-PID rule) exactly off the region where the lowest listed PID shows a parent (C05_parent_literal, C05_parents_literal; counterexample C05_lowest_pid_parent_counterexample = known finding C05-lowest-pid-parent), a caller whose incarnation is gone or whose PID was recycled gets NoSuchProcess whatever the object saw before — children() at full strength (C05_dead_caller_NSP, C05_recycled_caller_NSP), parent()/parents() at full strength too since /repo d7107b4 (fixes/C05-parent-root-recycled.diff: the lowest-PID stop of parent() checks the caller's identity before it answers None): fact rootGuarded pinned by the obligation cfg_root_guarded, C05_recycled_caller_NSP_parent_full and C05_dead_caller_NSP_X_parent_full hold for EVERY recycled/dead caller, the lowest listed PID included; what the unguarded stop did (None/[] for a recycled caller that is the lowest listed PID) is kept as a what-if for that configuration (C05_recycled_lowest_pid_counterexample, C05_recycled_lowest_pid_unguarded; former finding C05-recycled-lowest-pid, now a fixed: line whose witness is replayed on every run), and both stat readers recover ppid/starttime for every comm byte string (C05_stat_roundtrip). Richer world (Model/C05Dyn): any set of other processes with an unreadable or vanished stat file is left out and never fails children() (C05_unreadable_left_out[_rec], C05_unreadable_never_returned; false without the hypothesis that readable processes stay readable during the walk: C05_unreadable_mid_walk_counterexample), zombies are processes like any other (a modelling decision recorded as C05_model_state_letter_unread[_parents]; the code's zombie paths are tied by the correspondence only), parents() over ANY sequence of worlds — ancestors exiting, reaped, recycled, re-parented between two parent() calls — is the step-wise chain (C05_parents_dyn_spec), each element the parent of the previous one when looked up, never younger, no PID twice (C05_parents_dyn_links), terminating within |PIDs|+2 iterations (C05_parents_dyn_terminates), ending with NoSuchProcess at an element that is no longer itself (C05_parent_dyn_dead_NSP); inside oneshot() a cached ppid is answered without identity check (model lemma C05_model_oneshot_cache_hit), while a stat memo filled by another method still goes through the identity check (C05_oneshot_statmemo_parent). Round 3: the rich model of parent()/parents() is proved equal to the plain one on constant readable tables for every configuration (C05_static_parent_refines, C05_static_parents_refines; formerly a run-time flag); a recycled caller gets NoSuchProcess whatever is unreadable — the new owner included (C05_dead_caller_NSP_X, C05_recycled_caller_NSP_X[_parent], C05_parents_dyn_dead_NSP); with NO hypothesis on the look-up world a value returned by children() is exact and the only other outcome is AccessDenied(c) for a process c that turned unreadable (C05_children_value_exact, C05_children_outcomes); a value returned by parent() is the right one in any worlds (C05_parent_dyn_sound). Audit round: completeness of parents() while the table changes against the literal chain (C05_parent_dyn_literal, C05_parents_dyn_literal); SEQUENCES of calls on one object (Model/C05Seq): while the incarnation lives no call changes the object, so every single-call theorem holds for the n-th call (C05_seq_object_unchanged, C05_seq_children_exact), flags are only set by a call that saw it dead (C05_seq_flags_sound), a dead object stays dead (C05_seq_dead_stays_dead); the ORDER of children() is unspecified (a set) and characterised (C05_children_order_flat, C05_children_order_docstring: the docstring's order is not the code's). The model is tied to the code by translator facts (the three `<=`, the seen guard, the own-PID drop, the parents() cycle stop, the identity pre-checks incl. the `_gone` test, the lowest-PID stop, rfind/index facts, the except tuple of ppid_map(), POSIX ppid() uncached, create_time() cached; 22 facts, extractors total and independent) feeding the proof obligations cfg_good/scfg_good/xcfg_good/ocfg_good, and by a differential run of the real methods over fake procfs tables, random and exhaustive, incl. histories of several calls on one object and the unsorted order of children().",
+    "level_note": "Trusted: Lean kernel + {propext, Classical.choice, Quot.sound}; the translator; the correspondence harness; float create_time modelled by integer ticks (monotonicity checked at run time); atomic file reads; Process(pid)+create_time() as one look-up. The specification is silent (model-only comparison) about WHICH exception an unreadable stat file on the path of parent()/parents() produces, about a caller whose own stat file is unreadable while it is still the same incarnation (a recycled unreadable caller must get NoSuchProcess), and on a oneshot ppid() cache hit; for processes turning unreadable during the walk of children() the specification is the exact value or AccessDenied(that process). The specification of parent()/parents() is the LITERAL statement; inside the region of the known finding C05-lowest-pid-parent (the lowest listed PID shows a parent) the check accepts exactly psutil's reading and still requires equality with the Lean model; the region of the former finding C05-recycled-lowest-pid (dead caller that is the lowest listed PID; fixed in /repo d7107b4) is no longer tolerated: an implementation that answers None/[] there is a violation with a concrete replay. The order of children()'s list is compared with the model only (unspecified by the statement). The zombie paths of the code (wrap_exceptions/_raise_if_zombie) and @memoize_when_activated are not in the model (correspondence only).",
     "technique": "Lean 4 proof (DFS invariant + fuel bound, induction over the reachability relation, case analysis) + translator-fed proof obligations + differential correspondence on fake procfs with exhaustive small tables",
     "design_ref": "DESIGN.md §5 C05",
 }
@@ -51,11 +51,13 @@ MAX_TICKS = 4096
 # Known findings of parent()/parents() (findings/C05.json). The driver prints three readings of the statement:
 #   spec        literal: the process named by ppid() unless younger; a dead caller gets NoSuchProcess whatever its PID
 #   spec_stop   the same with psutil's rule "the lowest listed PID has no parent" (applied after the identity check)
-#   spec_found  …with that rule applied BEFORE the identity check (psutil as found)
+#   spec_found  …with that rule applied BEFORE the identity check (psutil before /repo d7107b4)
 # Region of FINDING_ROOT_PARENT = inputs on which spec_stop differs from spec (the lowest listed PID shows a parent and
 # the call gets to it); region of FINDING_ROOT_RECYCLED = inputs on which spec_found differs from spec_stop (the caller
 # is dead AND its PID is the lowest listed one). Inside a region the implementation must give exactly the literal
 # value or that region's reading; everywhere the implementation must equal the Lean model.
+# C05-recycled-lowest-pid is FIXED (/repo d7107b4, `fixed:` line in findings/C05.json): the tag below suppresses nothing
+# any more (runner: a tag that is not listed as known counts as a violation) — it only names the region in the replay note.
 FINDING_ROOT_PARENT = "C05-lowest-pid-parent"
 FINDING_ROOT_RECYCLED = "C05-recycled-lowest-pid"
 
@@ -945,7 +947,7 @@ def judge(case, obs, running, extra, m, res, source, record=True):
                     if record:
                         res.known_seen[v] = res.known_seen.get(v, 0) + 1
                         res.disagree("spec", inp, po, pm["model"], pm["spec"], finding=v,
-                                     note=tag + ": implementation differs from the literal specification (known finding %s)" % v)
+                                     note=tag + ": implementation differs from the literal specification (region of finding %s)" % v)
                     verdict = "spec:" + v
             if po != pm["model"]:
                 if record:
@@ -978,7 +980,7 @@ def judge(case, obs, running, extra, m, res, source, record=True):
             # listed; the comparison with the model below stays strict
             if record:
                 res.disagree("spec", inp, obs, mo, sp, finding=v,
-                             note="%s(): implementation differs from the literal specification (known finding %s)" % (call, v))
+                             note="%s(): implementation differs from the literal specification (region of finding %s)" % (call, v))
             verdict = "spec:" + v
     if obs != mo:
         if record:
@@ -1040,7 +1042,7 @@ def judge_dyn(case, obs, extra, m, res, source, record=True):
         if v is not None:
             if record:
                 res.disagree("spec", inp, obs, mo, sp, finding=v,
-                             note="%s(): implementation differs from the literal specification (known finding %s; richer world)"
+                             note="%s(): implementation differs from the literal specification (region of finding %s; richer world)"
                              % (case["call"], v))
             verdict = "spec:" + v
     if obs != mo:
@@ -1553,7 +1555,7 @@ def correspond(ctx, res):
                         tags.append("exhaustive-states")
             ex_desc.append("%d (3-process table, states in {R,Z,X,G}³; caller rotates)" % cnt)
         # ---- exhaustive: every 2-process table × caller × the caller's PID recycled (new owner younger / older), incl. the
-        # lowest listed PID (region of the known finding C05-recycled-lowest-pid) — plain and richer world
+        # lowest listed PID (region of the FORMER finding C05-recycled-lowest-pid, fixed in /repo d7107b4) — plain and richer world
         cnt = 0
         for rows in exhaustive_tables(2, [2, 3]):
             for i, pid in enumerate((2, 3)):
